@@ -258,7 +258,10 @@ impl EventGen for GroupElement {
             events.push(OutputEvent::Start(new_el));
 
             if let Some(inner_events) = self.0.inner_events(context) {
-                let (ev_list, bb) = process_events(inner_events, context)?;
+                // the scope pushed above must be popped on the error path too
+                let (ev_list, bb) = process_events(inner_events, context).inspect_err(|_| {
+                    context.pop_element();
+                })?;
                 content_bb = bb;
                 events.extend(&ev_list);
             }
@@ -340,8 +343,9 @@ impl EventGen for SpecsElement {
         }
         if let Some(inner_events) = self.0.inner_events(context) {
             context.in_specs = true;
-            process_events(inner_events, context)?;
+            let res = process_events(inner_events, context);
             context.in_specs = false;
+            res?;
         }
         Ok((OutputList::new(), None))
     }
